@@ -60,6 +60,13 @@ func runWorker(bin string, args []string, env []string, limit time.Duration) *wo
 	}
 	res.stderr = se.String()
 	res.stdout = so.Bytes()
+	if f := os.Getenv("ZZSIM_TRACE_FILE"); f != "" {
+		// development aid: keep what the worker wrote to stderr (ZZSIM_TRACE=1)
+		if fh, err := os.OpenFile(f, os.O_APPEND|os.O_CREATE|os.O_WRONLY, 0o644); err == nil {
+			fmt.Fprintf(fh, "==== %s %v\n%s\n", bin, args, res.stderr)
+			fh.Close()
+		}
+	}
 	sc := bufio.NewScanner(bytes.NewReader(res.stdout))
 	sc.Buffer(make([]byte, 1<<20), 1<<28)
 	for sc.Scan() {
